@@ -7,7 +7,7 @@ from pyval import enc, dec
 
 def _msg(m): return re.sub(r"0x[0-9a-fA-F]+", "0x?", m or "")
 def canon(resp):
-    return json.dumps({"data": enc(resp.get("data")), "errors": [[e.get("path"), _msg(e.get("message")), e.get("locations")] for e in resp.get("errors") or []]}, sort_keys=True, default=str)
+    return _msg(json.dumps({"data": enc(resp.get("data")), "errors": [[e.get("path"), _msg(e.get("message")), e.get("locations")] for e in resp.get("errors") or []]}, sort_keys=True, default=str))
 
 class TaggedScalar(er.CustomScalar):
     """bundle-specific scalar implementation: makes cross-talk between schema names visible"""
@@ -46,12 +46,20 @@ def registrations(bundle):
         acts.append(lambda tn=tn, spec=spec: TypeResolver(tn, schema_name=name)(er.make_type_resolver(built, spec, "type:" + tn)))
     return acts
 
+class CookFailed:
+    def __init__(self, e): self.e = e
+
 async def cook(bundle):
     from tartiflette import create_engine
-    return await create_engine(print_sdl(bundle["model"]), schema_name=bundle["name"])
+    try:
+        return await create_engine(print_sdl(bundle["model"]), schema_name=bundle["name"])
+    except Exception as e:
+        return CookFailed(e)
 
 async def probe(engine, bundle):
     out = []
+    if isinstance(engine, CookFailed):
+        return [f"cook failed: {type(engine.e).__name__}: {engine.e}"[:300]] * len(bundle["probes"])
     for q, opn, variables in bundle["probes"]:
         try:
             r = await engine.execute(q, operation_name=opn, variables=variables)
